@@ -53,6 +53,7 @@ type Decoder struct {
 	S12      *Suite12
 	CW, SW   Keys12
 	Has12    bool
+	Master   []byte
 	Client   string // name of the client endpoint on the tap ("C")
 	Gens     []Gen13
 	S13      *Suite13
@@ -67,7 +68,7 @@ func NewDecoder12(suite uint16, master, clientRandom, serverRandom []byte) *Deco
 	}
 	cw, sw := DirectionKeys(s, master, clientRandom, serverRandom)
 
-	return &Decoder{S12: &s, CW: cw, SW: sw, Has12: true, Client: "C", expected: map[string]uint64{}}
+	return &Decoder{S12: &s, CW: cw, SW: sw, Has12: true, Master: append([]byte(nil), master...), Client: "C", expected: map[string]uint64{}}
 }
 
 // NewDecoder13 builds a decoder for a DTLS 1.3 session; generations are added as they are seen.
